@@ -457,3 +457,60 @@ func (ls *LState) VerifWhere(level int, skipg bool) string { return ls.where(lev
 
 // VerifFindLocal exposes findLocal on the frame of a Debug record.
 func (ls *LState) VerifFindLocal(d *Debug, no int) string { return ls.findLocal(d.frame, no) }
+
+// ---- C02: call frames and instruction stepping ----
+
+// VerifCallFrame is a read-only copy of the bookkeeping fields of one call frame.
+type VerifCallFrame struct {
+	Idx, Pc, Base, LocalBase, ReturnBase, NArgs, NRet, TailCall int
+	Fn                                                          *LFunction
+}
+
+// VerifCallFrames returns copies of the top-most n call frames (index 0 = top of the call stack).
+func (ls *LState) VerifCallFrames(n int) []VerifCallFrame {
+	sp := ls.stack.Sp()
+	var out []VerifCallFrame
+	for i := 0; i < n && sp-1-i >= 0; i++ {
+		f := ls.stack.At(sp - 1 - i)
+		if f == nil {
+			break
+		}
+		out = append(out, VerifCallFrame{Idx: f.Idx, Pc: f.Pc, Base: f.Base, LocalBase: f.LocalBase, ReturnBase: f.ReturnBase,
+			NArgs: f.NArgs, NRet: f.NRet, TailCall: f.TailCall, Fn: f.Fn})
+	}
+	return out
+}
+
+// VerifSetStepHook makes this state run Lua code through a loop identical to mainLoop (same fetch, same dispatch
+// through the real jumpTable) that reports every instruction before (phase 0) and after (phase 1) it is executed;
+// id pairs the two reports (no phase-1 report when the instruction raises).  nil restores mainLoop.
+func (ls *LState) VerifSetStepHook(cb func(L *LState, inst uint32, id int, phase int)) {
+	if cb == nil {
+		ls.mainLoop = mainLoop
+		return
+	}
+	next := 0
+	ls.mainLoop = func(L *LState, baseframe *callFrame) {
+		if L.stack.IsEmpty() {
+			return
+		}
+		L.currentFrame = L.stack.Last()
+		if L.currentFrame.Fn.IsG {
+			callGFunction(L, false)
+			return
+		}
+		for {
+			cf := L.currentFrame
+			inst := cf.Fn.Proto.Code[cf.Pc]
+			cf.Pc++
+			next++
+			id := next
+			cb(L, inst, id, 0)
+			r := jumpTable[int(inst>>26)](L, inst, baseframe)
+			cb(L, inst, id, 1)
+			if r == 1 {
+				return
+			}
+		}
+	}
+}
